@@ -250,7 +250,13 @@ func (ex *Exec) scanMods(fr *frame, l *Loop, st *State) *loopMods {
 							}
 						}
 						if sig, ok := cc.Value.Type().Underlying().(*types.Signature); ok && !cc.IsInvoke() {
-							if c, ok := ex.P.CS.Ifaces["functype:"+sigKey(sig)]; ok {
+							c, ok := ex.P.CS.Ifaces["functype:"+sigKey(sig)]
+							if fn != nil && fn.Pkg != nil {
+								if ca, okAt := ex.P.CS.Ifaces["functype:"+sigKey(sig)+"@"+fn.Pkg.Pkg.Name()+"."+fn.RelString(fn.Pkg.Pkg)]; okAt {
+									c, ok = ca, true
+								}
+							}
+							if ok {
 								pn := append([]string(nil), c.Params...)
 								var pt []types.Type
 								for i := 0; i < sig.Params().Len(); i++ {
